@@ -477,6 +477,19 @@ def kind_cases():
     for k in ("rect", "tri", "saw"):
         P[k + "_v"] = [{"V": 1.0, "w": 1.0, "phi": 0.3}, {"V": 1.0, "w": 1.0, "phi": 45.0, "deg": True}]
         P[k + "_i"] = [{"I": 1.0, "w": 1.0, "phi": 0.3}, {"I": 1.0, "w": 1.0, "phi": 45.0, "deg": True}]
+    # bench values that no short decimal represents (a document that rounds or reformats numbers shows here)
+    P["resistor"].append({"R": 1e6 / 3})
+    P["conductance"].append({"G": 1e-7 / 3})
+    P["impedance"].append({"Z": [1e3 / 7, -1e-7 / 3]})
+    P["capacitor"] += [{"C": 4.7e-9}, {"C": 1e-3 / 3}]
+    P["inductance"] += [{"L": 3.3e-10}, {"L": 0.1 + 1e-11}]
+    P["dc_v"].append({"V": 1e-9 / 3})
+    P["dc_i"].append({"I": -2e-12 / 7})
+    P["complex_v"].append({"V": [1e-10 / 3, 2e5 / 7]})
+    P["ac_v"].append({"V": 325.26911934581187, "w": 314.1592653589793, "phi": 0.12345678901234})
+    P["ac_i"].append({"I": 1e-6 / 3, "w": 314.1592653589793, "phi": 2.0943951023931953})
+    P["rect_v"].append({"V": 1 / 3, "w": 314.1592653589793, "phi": 0.12345678901234})
+    P["rect_i"].append({"I": 1e-10 / 3, "w": 2e5 / 7, "phi": 1e-10 / 3})
     for kind, plist in P.items():
         for params in plist:
             out.append((kind, params))
